@@ -14,7 +14,8 @@ RULE = (
     "Domains: (a) Hypothesis atom tables (1-3 models sharing residue identities as NMR ensembles do, 1-3 chains, "
     "negative numbers, insertion-code runs, alternate-location groups with distinct occupancies, hetero groups, "
     "optionally one planted pair of atoms 0.1-0.4 A apart) emitted by the harness as PDB and as mmCIF with '?' and "
-    "with '.' as null marker, read with every model argument in {None} U models present; (b) corpus files (incl. the "
+    "with '.' as null marker (and, for multi-model tables, as mmCIF whose rows are ordered polymer-first / residue by "
+    "residue across models / models reversed, so that a model's rows are not contiguous), read with every model argument in {None} U models present; (b) corpus files (incl. the "
     "NMR ensembles and the altloc files) decoded independently by the harness's column slicer / CIF tokenizer, read "
     "with model None and each of the first models. Oracle: expected atom list of the requested model = per (residue "
     "identity, atom name) a copy of maximal occupancy, of an isolated pair closer than 0.5 A exactly one of maximal "
@@ -241,6 +242,27 @@ def read_text(text, ext, model):
         os.remove(p)
 
 
+def reorder_rows(atoms, how):
+    if how == "polymer-first":
+        # ATOM rows of every model, then the HETATM rows of every model
+        return [a for a in atoms if a["record"] != "HETATM"] + [a for a in atoms if a["record"] == "HETATM"]
+    if how == "by-residue":
+        # residue by residue, each listing its copy in model 1, model 2, ...
+        keys = []
+        for a in atoms:
+            k = (a["chain"], a["resseq"], a["icode"])
+            if k not in keys:
+                keys.append(k)
+        return [a for k in keys for a in atoms if (a["chain"], a["resseq"], a["icode"]) == k]
+    if how == "models-reversed":
+        models = []
+        for a in atoms:
+            if a["model"] not in models:
+                models.append(a["model"])
+        return [a for m in reversed(models) for a in atoms if a["model"] == m]
+    raise HarnessError(how)
+
+
 def oracle_table(case):
     atoms = case["atoms"]
     out = []
@@ -260,6 +282,14 @@ def oracle_table(case):
         for mreq in [None] + models:
             s3 = read_text(text, ext, mreq)
             out += compare(s3, atoms, mreq, tag.replace("?", "-q").replace(".", "-dot"))
+    if case.get("row_order") and len(models) >= 2:
+        # the atom_site loop has no ordering constraint: rows of one model need not be contiguous. Residues stay
+        # contiguous within their model; the expectation is computed from the rows in the order written.
+        atoms3 = reorder_rows(atoms, case["row_order"])
+        text = atomtab.emit_cif(atoms3, "?")
+        for mreq in [None] + models:
+            s3 = read_text(text, "cif", mreq)
+            out += compare(s3, atoms3, mreq, "cif-rows-" + case["row_order"])
     seen, res = set(), []
     for d in out:
         if d.sig not in seen:
@@ -323,6 +353,8 @@ def classify(case):
         labs.append("hetatm")
     if case.get("missing_occ"):
         labs.append("absent-occupancy")
+    if case.get("row_order") and len({a["model"] for a in atoms}) >= 2:
+        labs.append("cif-rows-" + case["row_order"])
     return bool(set(labs) - {"hetatm"}), labs
 
 
@@ -330,7 +362,8 @@ def st_cases():
     from hypothesis import strategies as st
 
     return st.fixed_dictionaries({"atoms": atomtab.st_tables(clashes=True, modified=True),
-                                  "missing_occ": st.sampled_from(["", "", "?", "."])})
+                                  "missing_occ": st.sampled_from(["", "", "?", "."]),
+                                  "row_order": st.sampled_from(["", "polymer-first", "by-residue", "models-reversed"])})
 
 
 NMR = ["1JJP.cif", "6RS3.cif", "2HY9.cif"]
